@@ -121,6 +121,17 @@ def extra_cases(seed):
     for name, objs in (('half-loop', [hl]), ('half-loop-rev', [hlr]), ('two-quarter-arcs', [q1, q2]), ('two-quarter-arcs-head-on', [q1, q2r]),
                        ('half-loop+monopole', [hl, mono]), ('monopole+half-loop', [mono, hlr])):
         yield dict(extra='gnd-' + name, env='ideal', f=f, objs=objs)
+    # junctions just above the plane: higher than 1/1000 of the shortest segment of the structure (not grounded), lower than
+    # 1/1000 of the segments of the long wire ending there
+    h, rs = 1e-5 * lam, 2e-6 * lam
+    mast = geom.wire([0., 0., h], [0., 0., 0.2 * lam], 10, rs)
+    mastr = geom.wire([0., 0., 0.2 * lam], [0., 0., h], 10, rs)
+    stub = geom.wire([0., 0., 0.], [0., 0., h], 1, rs)
+    rad1 = geom.wire([0., 0., h], [6 * h, 0., h], 1, rs)
+    rad2 = geom.wire([-5 * h, 3 * h, h], [0., 0., h], 1, rs)
+    for name, objs in (('stub+mast', [stub, mast]), ('mast+stub', [mast, stub]), ('mast-rev+stub', [mastr, stub]),
+                       ('mast+2stubs', [mast, rad1, rad2]), ('2stubs+mast-rev', [rad1, rad2, mastr])):
+        yield dict(extra='gnd-low-' + name, env='ideal', f=f, objs=objs)
     # exactly collinear junctions (telescoping element, different radii, equal segment vectors), every orientation, two orders
     stops = [np.array([0., y, 0.5]) for y in (-1., 0., 1., 2.)]
     for order in ((0, 1, 2), (2, 0, 1)):
